@@ -22,10 +22,6 @@ func (ial *IndentAwareLexer) NextToken() antlr.Token {
 	if ial.hitEOF && ial.pendingTokens.Size() > 0 {
 		return ial.pendingTokens.Dequeue()
 	}
-	if ial.GetInputStream().Size() == 0 {
-		ial.hitEOF = true
-		return antlr.NewCommonToken(nil, antlr.TokenEOF, antlr.TokenDefaultChannel, -1, -1)
-	}
 
 	ial.checkNextToken()
 	if ial.pendingTokens.Size() > 0 {
